@@ -386,8 +386,23 @@ func (c *Ctx) pushWithLocks(w *World, locks *sim.Locks, u, other *lockUser, remo
 		}
 	}
 	before := w.Refs(remote)
-	out, code := w.Git(u.dir, "push", "-q", "origin", "main")
+	// sometimes the push creates a new branch on the remote instead of updating main
+	dst := "main"
+	if c.T.Bool(1, 4, "push-creates-a-branch") {
+		c.nNewBranch++
+		dst = fmt.Sprintf("HEAD:refs/heads/topic-%s-%d", u.name, c.nNewBranch)
+		c.Probe("push-creates-a-branch")
+	}
+	reqBefore := len(w.Front.Requests())
+	out, code := w.Git(u.dir, "push", "-q", "origin", dst)
 	after := w.Refs(remote)
+	// did a scripted fault get in the way of the verification?
+	verifyFailed := false
+	for _, r := range w.Front.Requests()[reqBefore:] {
+		if r.Kind == "lock-verify" && r.Status != 200 {
+			verifyFailed = true
+		}
+	}
 	// The verification a push performs is not written back to the client's
 	// persistent cache (the verifier's lock client is never closed), so it is
 	// not a point at which the client's view is refreshed: only
@@ -398,8 +413,9 @@ func (c *Ctx) pushWithLocks(w *World, locks *sim.Locks, u, other *lockUser, remo
 	}
 	if len(touchesForeign) > 0 && verifySetting == "true" {
 		c.Probe("push-touching-foreign-lock")
-		// the verification itself may have been made impossible by a scripted fault
-		verifyWorked := listed
+		// the verification itself may have been made impossible by a scripted
+		// fault; not asking the server at all is no excuse
+		verifyWorked := listed || !verifyFailed
 		if code == 0 && verifyWorked {
 			c.Violation("push-accepted-despite-foreign-lock", "%s: git push exited 0 although the pushed commits modify %v locked by %s and lock verification is enabled; output: %s", u.name, touchesForeign, other.name, clipStr(out, 200))
 			return
